@@ -2,7 +2,7 @@
     Models: Model/C04_Gmod.v (DenseAdditive[Dominance]LinearGenomicModel, DenseLinearGenomicModel, rrBLUPModel0 predictions and
     statistics; TrueBreedingValue), Model/C04_GS.v (gauss_seidel and the non-numerical parts of rrBLUPModel0.fit_numpy). *)
 From Coq Require Import Permutation.
-From PV Require Import Lib.Common Model.C04_Gmod Model.C04_GS Proofs.C04_Counts Proofs.C04_Linear Proofs.C04_Var Proofs.C04_Sums Proofs.C04_GS Proofs.C04_Ridge.
+From PV Require Import Lib.Common Model.C04_Gmod Model.C04_GS Proofs.C04_Counts Proofs.C04_Linear Proofs.C04_Var Proofs.C04_Sums Proofs.C04_Genic Proofs.C04_GS Proofs.C04_Ridge Proofs.C04_Check.
 Local Open Scope Q_scope.
 
 (** ** predictions are linear and label-preserving *)
@@ -126,6 +126,42 @@ Theorem C04_variance_perm_invariant : forall g gt ix, gt_ok gt -> Permutation ix
 Proof. intros g gt ix Hok P. split; intros; [now apply var_A_perm | now apply var_G_perm]. Qed.
 Print Assumptions C04_variance_perm_invariant.
 
+(** genic variance of trait k = ploidy^2 * sum_j u_jk^2 p_j (1 - p_j) with p_j = allele count / (ploidy * ntaxa); it is
+    non-negative and vanishes exactly when every marker is neutral for the trait or fixed *)
+Theorem C04_var_a_definition : forall t (u : qmat) (fr : list Q) (ploidy : Z) k, rows_len t u -> length fr = length u -> (k < t)%nat ->
+  nth k (var_a_of t u fr ploidy) 0 ==
+  inject_Z (ploidy * ploidy) * bigsum (length u) (fun j => (nth k (nth j u []) 0 * nth k (nth j u []) 0) * (nth j fr 0 * (1 - nth j fr 0))).
+Proof. exact var_a_of_entry. Qed.
+Print Assumptions C04_var_a_definition.
+
+Theorem C04_var_a_zero_iff : forall g gt arg k,
+  let u := bv_effects g in let ploidy := eff_ploidy gt arg in let N := (ploidy * gt_ntaxa gt)%Z in let c := acount gt (length u) in
+  rows_len (g_t g) u -> Forall (fun r => length r = length u) (dosage gt) -> (k < g_t g)%nat ->
+  (0 < N)%Z -> ~ (ploidy = 0)%Z -> (forall j, (j < length u)%nat -> 0 <= nth j c 0 <= N)%Z ->
+  0 <= nth k (var_a g gt arg) 0 /\
+  (nth k (var_a g gt arg) 0 == 0 <-> forall j, (j < length u)%nat -> nth k (nth j u []) 0 == 0 \/ nth j c 0%Z = 0%Z \/ nth j c 0%Z = N).
+Proof.
+  intros g gt arg k u ploidy N c Hu Hs Hk HN Hp Hc. unfold var_a, afreq. fold u ploidy N c.
+  apply var_a_of_zero_iff; try assumption. unfold c, acount. now rewrite colsumsZ_len.
+Qed.
+Print Assumptions C04_var_a_zero_iff.
+
+(** Bulmer ratio of trait k: var_A / var_a, and NaN exactly when var_a = 0 *)
+Theorem C04_bulmer_definition : forall g gt arg l vA k, var_A g gt = Some vA -> bulmer g gt arg = Some l ->
+  (k < length vA)%nat -> (k < length (var_a g gt arg))%nat ->
+  nth k l None = if Qeq_bool (nth k (var_a g gt arg) 0) 0 then None else Some (nth k vA 0 / nth k (var_a g gt arg) 0).
+Proof. exact bulmer_entry. Qed.
+Print Assumptions C04_bulmer_definition.
+
+(** coefficient of determination: 1 - SSE/SST (undefined iff SST = 0), at most 1, equal to 1 exactly for a perfect prediction *)
+Theorem C04_score_definition : forall y yhat,
+  (rsq y yhat = None <-> sqdev (qmean y) y == 0) /\
+  (forall r, rsq y yhat = Some r ->
+     let sse := sumQ (map2 (fun a b => (a - b) * (a - b)) y yhat) in let sst := sqdev (qmean y) y in
+     0 < sst /\ r == 1 - sse / sst /\ r <= 1 /\ (r == 1 <-> sse == 0)).
+Proof. intros y yhat. split; [apply rsq_none | intros r; apply rsq_spec]. Qed.
+Print Assumptions C04_score_definition.
+
 (** ** allele statistics *)
 
 (** every entry of the twelve fa*/da*/na* tables is its definition on (u_jk, allele count of marker j, ploidy*ntaxa) *)
@@ -240,6 +276,14 @@ Theorem C04_gs_exit_residual : forall n A b atol maxiter xf, length A = n -> row
 Proof. exact gauss_seidel_exit_residual. Qed.
 Print Assumptions C04_gs_exit_residual.
 
+(** the boolean check [resid_ok] that the correspondence shards evaluate on the implementation's output is exactly what the
+    theorem guarantees for the model: a run that stops before the iteration limit passes it *)
+Theorem C04_gs_exit_passes_check : forall n A b atol maxiter xf, length A = n -> rows_len n A -> length b = n ->
+  0 < atol -> (0 < maxiter)%nat -> gauss_seidel A b atol maxiter = Some xf ->
+  exists k, (1 <= k <= maxiter)%nat /\ xf = iter_sweep A b k (repeat 0 n) /\ ((k < maxiter)%nat -> resid_ok A b xf atol = true).
+Proof. exact exit_before_limit_passes_check. Qed.
+Print Assumptions C04_gs_exit_passes_check.
+
 (** the same for the fitted model: (Z'Z + ridge I) u = Z'(y - mean) up to the solver's tolerance whenever the iteration limit
     was not hit.  The property's clause "whenever n > p" is NOT provable from n > p: with collinear polymorphic markers and the
     tiny ridge the ML step produces, the implementation hits maxiter = 1000 (finding C04-gs-maxiter). *)
@@ -263,15 +307,29 @@ Theorem C04_rr_defined : forall p (Zg : zmat) y ridge atol maxiter, length y = l
 Proof. exact rr_fit1_defined. Qed.
 Print Assumptions C04_rr_defined.
 
-(** non-vacuity: a concrete dominance model, a phased 2 x 2 x 2 input and a permutation meet the hypotheses *)
+(** non-vacuity: a concrete dominance model, a phased 2 x 2 x 2 input and a permutation meet the hypotheses; a concrete
+    symmetric positive-diagonal system is solved by gauss_seidel; a concrete training set is fitted *)
 Example C04_hyps_satisfiable :
   let g := build CAD [[1; 2]; [3; 4]] None [[1; 0]; [-1; 2]] (Some [[0; 1]; [1; 0]]) 2 in
   let gt := GPhased 2 2 [[[0; 1]; [1; 1]]; [[0; 0]; [1; 0]]]%Z in
   shaped g /\ well_shaped g /\ g_cls g <> CL /\ gt_ok gt /\ in_range (length (dosage gt)) [1; 0]%nat /\
   Permutation [1; 0]%nat (seq 0 (length (dosage gt))) /\
   Forall (fun r => length r = length (bv_effects g)) (dosage gt) /\
-  (exists v lab, gebv g gt (None, None) = Some (v, lab)) /\ (exists v lab, gegv g gt (None, None) = Some (v, lab)).
+  (exists v lab, gebv g gt (None, None) = Some (v, lab)) /\ (exists v lab, gegv g gt (None, None) = Some (v, lab)) /\
+  (exists x, gauss_seidel [[2; 1]; [1; 3]] [1; 2] (1 # 100) 50 = Some x /\ qform [[2; 1]; [1; 3]] [1; 2] x < 0) /\
+  (exists beta u, rr_fit1 2 [[0; 1]; [1; 1]; [2; 1]; [1; 1]]%Z [1; 2; 4; 2] (1 # 2) (1 # 100) 50 = Some (beta, u) /\ nth 1 u 7 = 0).
 Proof.
-  cbv zeta. unfold shaped, well_shaped, rows_len, gt_ok, phases_ok, rows_len, in_range. cbn.
-  repeat first [ split | constructor | discriminate | lia | reflexivity | (eexists; eexists; reflexivity) ].
+  cbv zeta. unfold shaped, well_shaped, rows_len, gt_ok, phases_ok, rows_len, in_range.
+  split; [cbn; repeat first [ split | constructor | reflexivity ]|].
+  split; [cbn; repeat first [ constructor | reflexivity ]|].
+  split; [cbn; discriminate|].
+  split; [cbn; repeat first [ split | constructor | reflexivity ]|].
+  split; [cbn; repeat first [ constructor | lia ]|].
+  split; [cbn; apply perm_swap|].
+  split; [cbn; repeat first [ constructor | reflexivity ]|].
+  split; [cbn; eexists; eexists; reflexivity|].
+  split; [cbn; eexists; eexists; reflexivity|].
+  split.
+  - eexists. split; [vm_compute; reflexivity | vm_compute; reflexivity].
+  - eexists; eexists. split; [vm_compute; reflexivity | reflexivity].
 Qed.
